@@ -281,6 +281,16 @@ func (f *foldState) applyFlag(o *Opt) {
 	}
 }
 
+// unkQuote - how an unknown option's name must appear in an error or warning: quoted; a name marked with a leading NUL
+// (token written with three dashes: the library may count the third dash as part of the name or not) only needs the
+// name followed by the closing quote.
+func unkQuote(n string) string {
+	if strings.HasPrefix(n, "\x00") {
+		return n[1:] + "'"
+	}
+	return "'" + n + "'"
+}
+
 func (f *foldState) unknownTok(it *Item) {
 	// require order: an unknown option is the stop token (handled by caller through f.stop)
 	switch f.node.Unknown {
@@ -288,7 +298,7 @@ func (f *foldState) unknownTok(it *Item) {
 		if f.sawFailUnknown {
 			// a later unknown option must not be the one reported
 			for _, n := range it.UnkNames {
-				q := "'" + n + "'"
+				q := unkQuote(n)
 				if q != f.firstUnknown {
 					f.exp.ErrAbsent = append(f.exp.ErrAbsent, q)
 				}
@@ -296,10 +306,10 @@ func (f *foldState) unknownTok(it *Item) {
 			return
 		}
 		f.sawFailUnknown = true
-		f.firstUnknown = "'" + it.UnkNames[0] + "'"
+		f.firstUnknown = unkQuote(it.UnkNames[0])
 		f.fail("unknown", f.firstUnknown)
 		for _, n := range it.UnkNames[1:] {
-			q := "'" + n + "'"
+			q := unkQuote(n)
 			if q != f.firstUnknown {
 				f.exp.ErrAbsent = append(f.exp.ErrAbsent, q)
 			}
@@ -426,7 +436,7 @@ func Diff(t *Tree, oc *Outcome, e *Expect) []string {
 	d = append(d, diffOpts(t, oc.Opts, oc.Ptrs, e)...)
 	// warnings
 	for _, n := range e.WarnNames {
-		if !strings.Contains(oc.Writer, "'"+n+"'") {
+		if !strings.Contains(oc.Writer, unkQuote(n)) {
 			d = append(d, fmt.Sprintf("no warning naming %q on Writer (%q)", n, oc.Writer))
 		}
 	}
